@@ -1,7 +1,8 @@
 ------------------------ MODULE MCProblemKindLattice ------------------------
 (* T1 configuration of ProblemKindLattice: constants come from the tables of *)
 (* the real problem_kind_versioning module (ProblemKindLatticeTables).       *)
-EXTENDS ProblemKindLattice, ProblemKindLatticeTables
+(* The same run emits the kinds / pairs / scripts (ProblemKindLatticeEnum).   *)
+EXTENDS ProblemKindLatticeEnum   \* = ProblemKindLattice + tables + the G1 emission (one JVM start for both)
 \* T1 visits every ordered pair of kinds as (object 1, object 2): queries on <<1, 2>> (on <<1, 1>> while
 \* only one object exists) cover all operand pairs
 FirstPair(lv) == {<<1, IF 2 \in lv THEN 2 ELSE 1>>}
